@@ -553,7 +553,12 @@ func init() {
 			"denotation in the renderer's output conventions (calibration log in DESIGN.md); comparison through ref.Norm; CRLF documents compared after mapping CRLF to LF in the output",
 			"the serializer only emits spellings whose meaning the spec text fixes; its guard re-reads every line with the reference recognisers and rejects rather than guesses",
 		},
-		SelfTest: admSelfTest,
+		SelfTest: func() error {
+			if _, err := ref.RawHTMLSelfTest(); err != nil {
+				return err
+			}
+			return admSelfTest()
+		},
 		Run: func(c *Ctx) {
 			dev := c.Pick(1, 2)
 			c.Explore("skeletons", fmt.Sprintf("block skeletons with <=4 nodes, <=3 top-level blocks, container depth <=2, x spelling deviations <=%d", dev), dev, 4, func(x *X) {
@@ -664,6 +669,8 @@ func init() {
 				x.Count(fmt.Sprintf("nesting_depth_%d", nestingDepth(doc)))
 				c06Compare(x, doc, "deep-nesting")
 			})
+			c.Inputs(spRawTag, c.Pick(6, 7), c06RawDriver)
+			c.Inputs(spRawDecl, c.Pick(5, 6), c06RawDriver)
 			nl := c.Pick(3, 4)
 			c.Explore("code-content", fmt.Sprintf("fenced (with/without info string) and indented code blocks with every sequence of <=%d content lines from a %d-line menu of fence-like, indented, blank and marker-like lines, in each context, x spelling deviations <=%d (fence character, fence length, longer closing fence)", nl, len(codeLineMenu), dev), dev, nl, func(x *X) {
 				leaf := codeContentLeaf(x, nl)
